@@ -244,8 +244,9 @@ func c14Client(e *c14Env, b C14Batch, i int, spec C14Client, tgtMux, dnsMux *tag
 			return kit.Violation("nat:not-expired", "client %d (%s): association not removed %v after %s", i, spec.Script, by, what)
 		}
 		// the outbound socket is closed: its port has left the kernel's UDP table
-		if !kit.WaitFor(2*time.Second, func() bool { return !kit.LocalUDPPorts()[natSrc.Port] }) {
-			return kit.Violation("nat:socket-not-closed", "client %d (%s): association removed but its outbound port %d is still bound 2 s later", i, spec.Script, natSrc.Port)
+		// (by inode: the port number may have been taken by another socket meanwhile, also of another process)
+		if !kit.WaitFor(2*time.Second, func() bool { return !kit.UDPInodeBound(natInode) }) {
+			return kit.Violation("nat:socket-not-closed", "client %d (%s): association removed but its outbound socket (port %d, inode %s) still exists 2 s later", i, spec.Script, natSrc.Port, natInode)
 		}
 		return nil
 	}
@@ -253,6 +254,7 @@ func c14Client(e *c14Env, b C14Batch, i int, spec C14Client, tgtMux, dnsMux *tag
 	tgtAddr, dnsAddr := e.tgt.Addr, e.dns.Addr
 	var lastPlain, lastDNS time.Time
 	var natSrc *net.UDPAddr
+	natInode := ""
 	sendPlain := func(k int) *kit.Finding {
 		t0 := time.Now()
 		e.send(cl, tgtAddr, tag("plain", k), seed+int64(k))
@@ -261,6 +263,9 @@ func c14Client(e *c14Env, b C14Batch, i int, spec C14Client, tgtMux, dnsMux *tag
 			return kit.Violation("nat:not-forwarded", "client %d (%s): datagram %d did not reach the target", i, spec.Script, k)
 		}
 		lastPlain, natSrc = t0, d.From
+		if natInode == "" {
+			natInode = kit.UDPSocketInode(natSrc.Port)
+		}
 		return nil
 	}
 	sendDNS := func(k int) *kit.Finding {
@@ -271,6 +276,9 @@ func c14Client(e *c14Env, b C14Batch, i int, spec C14Client, tgtMux, dnsMux *tag
 			return kit.Violation("nat:not-forwarded", "client %d (%s): DNS datagram %d did not reach the DNS server", i, spec.Script, k)
 		}
 		lastDNS, natSrc = t0, d.From
+		if natInode == "" {
+			natInode = kit.UDPSocketInode(natSrc.Port)
+		}
 		return nil
 	}
 	gap := func() { time.Sleep(time.Duration(spec.GapMs) * time.Millisecond) }
